@@ -108,17 +108,55 @@ def check_body_reads(rep, rule, fi, seq_attrs, nd):
 
 
 # ---------------------------------------------------------------------------------------------------------------- R15.g
-def body_mutators(fi, nd, body_attrs, body_calls):
-    """AST nodes that replace body / status of the next() result (stores to the attributes, calls of the setters)."""
+# headers that say what the body is / how the client must decode it (lower case)
+REPR_HEADERS = {'content-type', 'content-encoding', 'content-length', 'transfer-encoding', 'content-range'}
+HEADER_KEY_WRITERS = {'set', 'add', 'add_header', 'pop', 'remove', 'setlist', 'setlistdefault', '__setitem__', '__delitem__'}
+HEADER_BULK_WRITERS = {'clear', 'update', 'extend', 'popitem'}
+
+
+def _headers_of(e, nd, loc, st):
+    """``e`` (named temporaries looked through) is ``<next() result>.headers``"""
+    r = loc.resolve(e, st) if loc is not None and st is not None and loc.cfg.nodes_of(st) else e
+    return isinstance(r, ast.Attribute) and r.attr == 'headers' and isinstance(r.value, ast.Name) and r.value.id in nd
+
+
+def _repr_key(repo, mod, k):
+    """a header name: does it describe the representation?  (a name that cannot be folded counts: it may)"""
+    v = repo.try_fold(k, mod) if repo is not None else (k.value if isinstance(k, ast.Constant) else None)
+    return not isinstance(v, str) or v.lower() in REPR_HEADERS
+
+
+def body_mutators(fi, nd, body_attrs, body_calls, loc=None, repo=None):
+    """AST nodes that change status, body or the description of the body of the next() result: stores to / deletes of the
+    attributes, calls of the setters, and -- with ``loc`` -- writes of the representation headers through ``<result>.headers``
+    (``h[..] = v`` / ``del h[..]`` / ``h.set(..)`` / ``h.pop(..)`` on Content-Type, -Encoding, -Length ..; ``h.clear()`` ...)."""
     muts = []
+    mod = fi.mod
     for n in walk_body(fi.node):
-        if isinstance(n, ast.Attribute) and isinstance(n.ctx, ast.Store) and isinstance(n.value, ast.Name) \
+        if isinstance(n, ast.Attribute) and isinstance(n.ctx, (ast.Store, ast.Del)) and isinstance(n.value, ast.Name) \
                 and n.value.id in nd and n.attr in body_attrs:
             muts.append(n)
         if isinstance(n, ast.Call) and isinstance(n.func, ast.Attribute) and n.func.attr in body_calls \
                 and isinstance(n.func.value, ast.Name) and n.func.value.id in nd:
             muts.append(n)
+        if isinstance(n, ast.Call) and isinstance(n.func, ast.Name) and n.func.id in ('setattr', 'delattr') and len(n.args) >= 2 \
+                and isinstance(n.args[0], ast.Name) and n.args[0].id in nd:
+            a = repo.try_fold(n.args[1], mod) if repo is not None else None
+            if not isinstance(a, str) or a in body_attrs:
+                muts.append(n)
+        if loc is None:
+            continue
+        if isinstance(n, ast.Subscript) and isinstance(n.ctx, (ast.Store, ast.Del)) and _headers_of(n.value, nd, loc, stmt_of(mod, n)) \
+                and _repr_key(repo, mod, n.slice):
+            muts.append(n)
+        if isinstance(n, ast.Call) and isinstance(n.func, ast.Attribute) and _headers_of(n.func.value, nd, loc, stmt_of(mod, n)):
+            if n.func.attr in HEADER_BULK_WRITERS or (n.func.attr in HEADER_KEY_WRITERS and (not n.args or _repr_key(repo, mod, n.args[0]))):
+                muts.append(n)
     return muts
+
+
+def mutator_text(mu):
+    return norm(mu.func) if isinstance(mu, ast.Call) and isinstance(mu.func, ast.Attribute) else (short(mu) if isinstance(mu, ast.Call) else norm(mu))
 
 
 def _own_exception_sites(fi, loc):
@@ -150,7 +188,7 @@ def check_own_exceptions(rep, rule, fi, nd, body_attrs, body_calls):
     if not sites:
         rep.ok(rule, fkey(fi, 'own exceptions'), 'raises no exception of its own and does no raising lookup on request data', mod, fi.node)
         return
-    mut_stmts = [stmt_of(mod, m) for m in body_mutators(fi, nd, body_attrs, body_calls)]
+    mut_stmts = [stmt_of(mod, m) for m in body_mutators(fi, nd, body_attrs, body_calls, loc, rep.repo)]
     mut_nodes = set(cfg.nodes_of_all(mut_stmts))
     # where the middleware does change responses, its trigger is a test those changes sit under as well
     mut_tests = set((id(t), p) for m in mut_stmts for t, p in cfg.conds_at_stmt(m, expand=False))
@@ -189,6 +227,220 @@ def check_own_exceptions(rep, rule, fi, nd, body_attrs, body_calls):
                   '(and under which the middleware makes its changes) comes before it%s -- a request that did not ask for this middleware can be answered with its exception (a 500 instead of the '
                   "application's response)" % (what, (' (%s is not that trigger: its other side goes on to change the response or raise, or the changes do not depend on it)'
                                                       % '; '.join(cond_texts(rejected))) if rejected else ''), mod, node)
+
+
+# ---------------------------------------------------------------------------------------------------------------- R15.h
+CONTEXT_DROPPERS = {'pop', 'popitem', 'clear', '__delitem__'}
+
+
+def _config_defaults(repo, fi):
+    """{'self.<attr>': constant} -- what the attributes of the middleware a hook belongs to hold in the default configuration: the
+    constructor of the enclosing class stores a parameter there whose default is a constant"""
+    mod = fi.mod
+    cur = mod.parents.get(fi.node)
+    while cur is not None and not isinstance(cur, ast.ClassDef):
+        cur = mod.parents.get(cur)
+    ci = [c for c in mod.classes.values() if c.node is cur]
+    if not ci:
+        return {}
+    init = repo.find_method(ci[0], '__init__')
+    if init is None or init.mod.external:
+        return {}
+    a = init.node.args
+    names = [x.arg for x in a.args]
+    dflt = {}
+    for i, d in enumerate(a.defaults):
+        dflt[names[len(names) - len(a.defaults) + i]] = d
+    for x, d in zip(a.kwonlyargs, a.kw_defaults):
+        if d is not None:
+            dflt[x.arg] = d
+    out = {}
+    stores = {}
+    for s in stmts_of(init.node):
+        if isinstance(s, ast.Assign):
+            for t in s.targets:
+                if isinstance(t, ast.Attribute) and isinstance(t.value, ast.Name) and t.value.id == names[0]:
+                    stores.setdefault(t.attr, []).append(s.value)
+    for attr, vals in stores.items():
+        if len(vals) == 1 and isinstance(vals[0], ast.Name) and vals[0].id in dflt and _stored_once(init, vals[0].id):
+            d = dflt[vals[0].id]
+            if isinstance(d, ast.Constant):
+                out['self.%s' % attr] = d.value
+    return out
+
+
+def _unsatisfiable(prem):
+    """no truth assignment of the atoms satisfies all of [(test, polarity)]: True / False; None when there are too many atoms"""
+    import itertools
+    atoms = set()
+    fs = []
+    for t, p in prem:
+        f = diffcon._formula(t, atoms)
+        fs.append(f if p else ('not', f))
+    names = sorted(atoms)
+    if len(names) > diffcon.MAX_ATOMS:
+        return None
+    for vals in itertools.product((True, False), repeat=len(names)):
+        env = dict(zip(names, vals))
+        if all(diffcon._holds(f, env) for f in fs):
+            return False
+    return True
+
+
+def defaults_used(fi, defaults):
+    """{'self.x': node} for the configuration switches the function reads"""
+    out = {}
+    for x in walk_body(fi.node):
+        if isinstance(x, ast.Attribute) and isinstance(x.ctx, ast.Load) and norm(x) in defaults:
+            out.setdefault(norm(x), x)
+    return out
+
+
+def _entailed_on_every_way(cfg, loc, st, extra, goal, goal_pol):
+    """Does ``goal`` have truth value ``goal_pol`` whenever control reaches statement ``st``?  The condition of a node is the
+    disjunction, over the normal edges into it, of the condition of the predecessor (and the outcome of the test, for a branch);
+    it is cut (true) at the function entry, at the start of a loop iteration and at exception handlers, and a test that reads a
+    name re-bound on the way is dropped.  ``extra``: further premises [(expression, polarity)]."""
+    import itertools
+    from ..astutil import names_stored
+    targets = [n for n in cfg.nodes_of(st) if cfg.reachable(n)]
+    if not targets:
+        return False
+    CUT = ('entry', 'iter', 'handler', 'pending-exc', 'dispatch', 'exhaust')
+    region, todo = set(), list(targets)
+    while todo:
+        n = todo.pop()
+        if n in region:
+            continue
+        region.add(n)
+        if cfg.nodes[n].kind in CUT:
+            continue
+        todo.extend(p for p in cfg.pred[n] if (p, n) not in cfg.exc_edges)
+    rebound = set()
+    for n in region:
+        nd = cfg.nodes[n]
+        if nd.stmt is not None and nd.kind == 'stmt' and n not in targets:
+            rebound |= names_stored(nd.stmt)
+    atoms = set()
+    memo, stack = {}, set()
+
+    def cond(n):
+        if n in memo:
+            return memo[n]
+        nd = cfg.nodes[n]
+        if nd.kind in CUT or n in stack:
+            return ('const', True)
+        stack.add(n)
+        ways = [cond(p) for p in cfg.pred[n] if (p, n) not in cfg.exc_edges]
+        stack.discard(n)
+        f = ('or', ways) if ways else ('const', nd.kind == 'entry')
+        if nd.kind == 'branch':
+            t = loc.resolve(nd.test, nd.stmt) if cfg.nodes_of(nd.stmt) else nd.test
+            if not (set(x.id for x in ast.walk(t) if isinstance(x, ast.Name)) & rebound):
+                own = diffcon._formula(t, atoms)
+                f = ('and', [f, own if nd.pol else ('not', own)])
+        memo[n] = f
+        return f
+    prem = [('or', [cond(n) for n in targets])]
+    for e, pol in extra:
+        fe = diffcon._formula(e, atoms)
+        prem.append(fe if pol else ('not', fe))
+    g = diffcon._formula(goal, atoms)
+    if not goal_pol:
+        g = ('not', g)
+    names = sorted(atoms)
+    if len(names) > diffcon.MAX_ATOMS:
+        return False
+    for vals in itertools.product((True, False), repeat=len(names)):
+        env = dict(zip(names, vals))
+        if all(diffcon._holds(f, env) for f in prem) and not diffcon._holds(g, env):
+            return False
+    return True
+
+
+def _stored_once(init, name):
+    return not any(isinstance(n, ast.Name) and n.id == name and isinstance(n.ctx, (ast.Store, ast.Del)) for n in ast.walk(init.node))
+
+
+def check_render_context(rep, rule, fi):
+    """A render hook (parameter ``context``) of a built-in middleware, in the default configuration, only fills keys the endpoint
+    left unset: every store ``context[k] = v`` sits where the path condition -- together with what the constructor defaults say
+    about the middleware's own switches -- entails ``k not in context``; nothing is removed from the context."""
+    if 'context' not in fi.params():
+        return
+    mod, cfg = fi.mod, cfg_of(fi)
+    loc = diffcon.Locals(fi.node, cfg)
+    defaults = _config_defaults(rep.repo, fi)
+    n_sites = 0
+    for n in walk_body(fi.node):
+        key = None
+        if isinstance(n, ast.Subscript) and isinstance(n.ctx, (ast.Store, ast.Del)) and isinstance(n.value, ast.Name) and n.value.id == 'context':
+            if isinstance(n.ctx, ast.Del):
+                n_sites += 1
+                rep.check(rule, fkey(fi, 'del context[%s]' % norm(n.slice)), False,
+                          'a value the endpoint put into the render context is removed (%s): the rendered body changes' % short(stmt_of(mod, n)), mod, n)
+                continue
+            key = n.slice
+        elif isinstance(n, ast.Call) and isinstance(n.func, ast.Attribute) and isinstance(n.func.value, ast.Name) and n.func.value.id == 'context':
+            if n.func.attr in CONTEXT_DROPPERS:
+                n_sites += 1
+                rep.check(rule, fkey(fi, 'context.%s()' % n.func.attr), False,
+                          'a value the endpoint put into the render context is removed (%s): the rendered body changes' % short(n), mod, n)
+                continue
+            if n.func.attr == 'update':
+                # several keys at once: fine when the source is filtered to keys that are unset, or when the statement cannot run in
+                # the default configuration (it sits under a switch of the middleware that is off by default)
+                n_sites += 1
+                st = stmt_of(mod, n)
+                srcs = [loc.resolve(a, st) for a in n.args]
+                filtered = bool(srcs) and not n.keywords and all(
+                    isinstance(x, (ast.GeneratorExp, ast.ListComp, ast.DictComp)) and
+                    any(isinstance(i, ast.Compare) and len(i.ops) == 1 and isinstance(i.ops[0], ast.NotIn) and norm(i.comparators[0]) == 'context'
+                        for g in x.generators for i in g.ifs) for x in srcs)
+                cs = expand_conds(loc.conds(conds(fi, n), mod))
+                used = {}
+                for t, _ in cs:
+                    for x in ast.walk(t):
+                        if isinstance(x, ast.Attribute) and norm(x) in defaults:
+                            used[norm(x)] = x
+                dead = _unsatisfiable(cs + [(x, bool(defaults[k])) for k, x in sorted(used.items())])
+                if dead is None:
+                    raise AnalysisError('%s: path condition of %s too large to decide' % (fi.key, short(st)))
+                ok = filtered or dead
+                rep.check(rule, fkey(fi, 'context.update()'), ok,
+                          '%s writes only keys that are unset / cannot run in the default configuration' % short(n) if ok else
+                          '%s writes its keys into the render context whether or not the endpoint set them (default configuration): values the '
+                          'endpoint returned are replaced and the rendered body changes' % short(n), mod, n)
+            continue
+        else:
+            continue
+        n_sites += 1
+        st = stmt_of(mod, n)
+        cs = expand_conds(loc.conds(conds(fi, n), mod))
+        used = {}
+        for t, _ in cs:
+            for x in ast.walk(t):
+                if isinstance(x, ast.Attribute) and norm(x) in defaults:
+                    used[norm(x)] = x
+        prem = cs + [(x, bool(defaults[k])) for k, x in sorted(used.items())]
+        goal = ast.Compare(left=key, ops=[ast.In()], comparators=[ast.Name(id='context', ctx=ast.Load())])
+        try:
+            ok, model = diffcon.prop_entails(prem, goal, False)
+        except ValueError as e:
+            raise AnalysisError('%s: path condition of %s too large to decide (%s)' % (fi.key, short(st), e))
+        if not ok:
+            # the tests may not dominate the store (``if k in context: if not self.overwrite: continue``): decide over the
+            # disjunction of the ways into the statement instead
+            ok = _entailed_on_every_way(cfg, loc, st, [(x, bool(defaults[k])) for k, x in sorted(defaults_used(fi, defaults).items())], goal, False)
+        rep.check(rule, fkey(fi, 'context[%s] = ..' % norm(key)), ok,
+                  'context[%s] is filled only where it is known to be unset (default configuration: %s)'
+                  % (norm(key), ', '.join('%s=%r' % (k, defaults[k]) for k in sorted(used)) or 'no switch involved') if ok else
+                  "context[%s] is stored where, in the default configuration (%s), the path condition [%s] does not entail '%s not in context': a value the "
+                  'endpoint returned is replaced and the rendered body changes'
+                  % (norm(key), ', '.join('%s=%r' % (k, defaults[k]) for k in sorted(used)) or 'no switch of the middleware on the path',
+                     '; '.join(cond_texts(cs)) or 'none', norm(key)), mod, n)
+    if not n_sites:
+        rep.ok(rule, fkey(fi, 'render context'), 'the render hook does not write the render context', mod, fi.node)
 
 
 def cond_texts(cs):
